@@ -11,6 +11,8 @@ from common import tlc  # noqa
 MODEL_SWITCHES = [
     ("MC_Conc", "MC_Conc_Abug.cfg", "LinOK", "F1: get returns a cleared slot"),
     ("MC_Conc", "MC_Conc_Cbug.cfg", "ScanOK", "F1: scan returns a cleared slot"),
+    ("MC_Conc2", "MC_Conc2_bug1.cfg", "LinOK", "split without the splitting bit"),
+    ("MC_Conc2", "MC_Conc2_bug2.cfg", "LinOK", "get without the final version check"),
     ("YkEpoch", "MC_Epoch_bug.cfg", "SafeStrong", "F5: two-step enter"),
     ("YkLife", "MC_Life_bug.cfg", "ThreadsAliveWhileRunning", "F4: stop flags not cleared"),
     ("MC_Tree", "MC_Tree_scan5_f2.cfg", "ScanOK", "F2: scan uses l_key with INF"),
